@@ -98,6 +98,13 @@ BUILT = {
         'at every break) and Nasa9.from_data end to end incl. zero-Cp data; Shomate.from_data anchors for every fitting unit. '
         'Reproduction of polynomial sources and tracking of StatMech sources: bounded native check only.',
    note=BASE_NOTE + '; least-squares optimality of polyfit/curve_fit is an assumed library contract; fit quality is a labelled bounded check, never counted as proved; temperature grids concrete, data symbolic'),
+ 'C18': dict(level='proof', sec='4/C18',
+   text='Identifiers are structured strings (literal prefix + decimal text of a SYMBOLIC integer in a field of given width): for every '
+        'prefix mix the range items denote exactly the given ids (each covered verbatim with prefix and suffix width, nothing added), str '
+        'and list forms agree, ids the 4-digit notation cannot reproduce are rejected; obj_to_cti with tokens of SYMBOLIC length: single-line '
+        'form when short, otherwise tokens preserved in order and no line longer than its limit unless it holds a single token.',
+   note=BASE_NOTE + '; exact structured-string domain (pvc/sstr.py) instead of an SMT string theory; number of ids 1-3(4) and of tokens 1-4 enumerated '
+        '(integers / token lengths symbolic); larger collections by a labelled bounded check; more_itertools.consecutive_groups re-implemented from its documentation'),
 }
 REASON_PENDING = 'check not built yet (build phase in progress; see DESIGN.md section 10)'
 checks = []
